@@ -209,15 +209,16 @@ func (c *capture) accept() error {
 	case r := <-ch:
 		c.conn = r.c
 		return r.err
-	case <-time.After(5 * time.Second):
-		return fmt.Errorf("no connection from the client within 5 s")
+	case <-time.After(60 * time.Second):
+		return fmt.Errorf("no connection from the client within 60 s")
 	}
 }
 
-// read exactly n bytes (the length of the reference frame), then whatever else arrived within 20 ms
+// read exactly n bytes (the length of the reference frame); the deadline only bounds a hang (a frame that is
+// shorter than expected): it is far above anything load can cause
 func (c *capture) read(n int) ([]byte, []byte) {
 	buf := make([]byte, n)
-	c.conn.SetReadDeadline(time.Now().Add(2 * time.Second))
+	c.conn.SetReadDeadline(time.Now().Add(60 * time.Second))
 	k, _ := io.ReadFull(c.conn, buf)
 	buf = buf[:k]
 	var extra []byte
@@ -237,7 +238,7 @@ func socketPhase(env *vh.Env, rep *vh.Report, cases []*tcase, res []result, clie
 	capt := newCapture()
 	defer capt.ln.Close()
 	var client *oneway.OneWayTcpClient
-	o := vh.GuardTimeout(10*time.Second, func() {
+	o := vh.GuardTimeout(120*time.Second, func() {
 		client = oneway.GetOneWayTcpClient(oneway.WithServers([]string{capt.ln.Addr().String()}),
 			oneway.WithLicense(clientLicense), oneway.WithPcode(12345), oneway.WithOid(7))
 	})
@@ -268,7 +269,7 @@ func socketPhase(env *vh.Env, rep *vh.Report, cases []*tcase, res []result, clie
 		}
 		p, _ := c.build()
 		var err error
-		o := vh.GuardTimeout(10*time.Second, func() {
+		o := vh.GuardTimeout(120*time.Second, func() {
 			if perSend {
 				err = client.Send(p, wnet.WithLicense(c.lic))
 			} else {
